@@ -16,12 +16,13 @@ type val struct {
 	s    string
 	arr  []*val
 	m    map[string]*val
+	grp  int // maps: identity of the storage this value may legitimately share on the unchanged tree (0 = none)
 }
 
 func vint(i int64) *val { return &val{kind: "int", i: i} }
 
 func (v *val) clone() *val {
-	c := &val{kind: v.kind, i: v.i, s: v.s}
+	c := &val{kind: v.kind, i: v.i, s: v.s, grp: v.grp}
 	for _, e := range v.arr {
 		c.arr = append(c.arr, e.clone())
 	}
@@ -146,4 +147,25 @@ func knownSig(prop, sig string) bool {
 		}
 	}
 	return knownSigCache[prop+"\x00"+sig]
+}
+
+// hasGroup tells whether v is, or contains, a map of storage group g.
+func (v *val) hasGroup(g int) bool {
+	if v == nil || g == 0 {
+		return false
+	}
+	if v.kind == "map" && v.grp == g {
+		return true
+	}
+	for _, e := range v.arr {
+		if e.hasGroup(g) {
+			return true
+		}
+	}
+	for _, e := range v.m {
+		if e.hasGroup(g) {
+			return true
+		}
+	}
+	return false
 }
